@@ -15,6 +15,8 @@ SCRIPTS = [
     "map_broker_read_meta",
     "map_broker_find_expired",
     "map_broker_batch_remove",
+    "map_broker_read_ordered",
+    "map_broker_stats",
 ]
 
 if __name__ == "__main__":
